@@ -2,7 +2,7 @@
 import looplib as L
 from vlib import Failure, finish, hexs
 
-COQ_FILES = L.LOOP_COQ_FILES + L.REFINE_COQ_FILES + L.CANCEL_COQ_FILES
+COQ_FILES = L.LOOP_COQ_FILES + L.REFINE_COQ_FILES + L.CANCEL_COQ_FILES + L.MUTE_COQ_FILES
 
 CORPUS = [
     # the noidle race: the server answers idle while the client cancels it
@@ -26,7 +26,7 @@ def gen(ctx):
         scheds.append(L.Sched(labels=labels + L.flush(nreq), note="random session"))
     # sessions inside the fragment of the refinement theorems (c05_exec_refines): the theorem's domain is sampled against the real client too
     for _ in range(40 if ctx.tier == "quick" else 800):
-        labels, info, nreq = L.gen_fragment_session(rng, rng.choice([5, 15, 40, 80]), cancels=rng.random() < 0.4)
+        labels, info, nreq = L.gen_fragment_session(rng, rng.choice([5, 15, 40, 80]), cancels=rng.random() < 0.4, drops=rng.random() < 0.3)
         scheds.append(L.Sched(labels=labels + L.flush(nreq), note="fragment session"))
     return scheds
 
